@@ -711,6 +711,12 @@ func (b *BlockWise[C]) getCachedReceivedMessage(mg *messageGuard, r *pool.Messag
 		if errA != nil {
 			return nil, nil, cannotLockError(errA)
 		}
+		if e := b.receivingMessagesCache.Load(tokenStr); e == nil || e.Data() != mg {
+			// While we were waiting, the transfer was completed (or dropped) by another goroutine: the
+			// message has been handed to the application and is not ours any more.
+			mg.Release(1)
+			return nil, nil, errors.New("block-wise transfer was finished in the meantime")
+		}
 		return mg.Message, func() { mg.Release(1) }, nil
 	}
 	closeFnList := []func(){}
